@@ -118,6 +118,47 @@ pub fn corr(tier: &str, seed: u64, c: &mut Corr) {
             &format!("{} {} {} {}", d[0].r, d[0].g, d[0].b, d[0].a),
         );
     }
+    // lighting kernels on a bumpy alpha image: the alpha stored for the colour channels they computed
+    let o = crate::corpus::opts_for(None);
+    let nl = if tier == "thorough" { 300 } else { 40 };
+    for i in 0..nl {
+        let specular = i % 3 != 0;
+        let (cr, cg, cb) = match i % 8 {
+            0 => (16, 76, 135),
+            1 => (135, 76, 16),
+            2 => (76, 135, 16),
+            3 => (16, 135, 76),
+            4 => (200, 30, 120),
+            5 => (90, 90, 250),
+            _ => (rng.below(256), rng.below(256), rng.below(256)),
+        };
+        let light = match rng.below(3) {
+            0 => format!(r#"<feDistantLight azimuth="{}" elevation="{}"/>"#, rng.range(0, 360), rng.range(5, 85)),
+            1 => format!(r#"<fePointLight x="{}" y="{}" z="{}"/>"#, rng.range(0, 12), rng.range(0, 12), rng.range(2, 30)),
+            _ => format!(r#"<feSpotLight x="{}" y="{}" z="{}" pointsAtX="6" pointsAtY="6" pointsAtZ="0" specularExponent="{}"/>"#, rng.range(0, 12), rng.range(0, 12), rng.range(4, 30), rng.range(1, 8)),
+        };
+        let prim = if specular {
+            format!(r#"<feSpecularLighting surfaceScale="{}" specularConstant="{}" specularExponent="{}" lighting-color="rgb({cr},{cg},{cb})">{light}</feSpecularLighting>"#, rng.range(1, 9), rng.pick(&["0.5", "1", "1.7", "3"]), rng.range(1, 12))
+        } else {
+            format!(r#"<feDiffuseLighting surfaceScale="{}" diffuseConstant="{}" lighting-color="rgb({cr},{cg},{cb})">{light}</feDiffuseLighting>"#, rng.range(1, 9), rng.pick(&["0.5", "1", "1.7"]))
+        };
+        let svg = format!(r##"<svg xmlns="http://www.w3.org/2000/svg" width="12" height="12"><filter id="f" color-interpolation-filters="sRGB">{prim}</filter><rect width="12" height="12" filter="url(#f)"/></svg>"##);
+        let Ok(Ok(t)) = crate::pan::catch(|| usvg::Tree::from_str(&svg, &o)) else { continue };
+        let Some(f) = t.filters().first() else { continue };
+        let Some(pr) = f.primitives().first() else { continue };
+        let ls = match pr.kind() {
+            usvg::filter::Kind::SpecularLighting(fe) => fe.light_source(),
+            usvg::filter::Kind::DiffuseLighting(fe) => fe.light_source(),
+            _ => continue,
+        };
+        let (w, h) = (12u32, 12u32);
+        let src: Vec<RGBA8> = (0..w * h).map(|_| px(0, 0, 0, u8gen(&mut rng))).collect();
+        let kind = pr.kind().clone();
+        let Ok(out) = crate::pan::catch(|| vf::lighting(&kind, ls, w, h, &src)) else { continue };
+        for p in out {
+            c.emit(&format!("px lightalpha {} {} {} {}", if specular { "specular" } else { "diffuse" }, p.r, p.g, p.b), &p.a.to_string());
+        }
+    }
 }
 
 pub fn make_ct(func_r: usvg::filter::TransferFunction) -> usvg::filter::ComponentTransfer {
@@ -225,6 +266,30 @@ fn document_level(tier: &str, seed: u64, s: &mut Search) {
             }
             // the last primitive's result is the filter result; make sure it is the identity one
             prims += &ident(rng, last.as_deref().unwrap_or("SourceGraphic"), "");
+        } else if i % 6 == 1 {
+            // a lighting primitive with a colour of every channel order (alone, or lit from a blurred alpha)
+            let (cr, cg, cb) = match (i / 6) % 7 {
+                0 => (16, 76, 135),
+                1 => (135, 76, 16),
+                2 => (76, 135, 16),
+                3 => (16, 135, 76),
+                4 => (76, 16, 135),
+                5 => (135, 16, 76),
+                _ => (rng.below(256), rng.below(256), rng.below(256)),
+            };
+            let light = match rng.below(3) {
+                0 => format!(r#"<feDistantLight azimuth="{}" elevation="{}"/>"#, rng.range(0, 360), rng.range(10, 80)),
+                1 => format!(r#"<fePointLight x="{}" y="{}" z="{}"/>"#, rng.range(0, w as i64), rng.range(0, h as i64), rng.range(5, 40)),
+                _ => format!(r#"<feSpotLight x="{}" y="{}" z="{}" pointsAtX="{}" pointsAtY="{}" pointsAtZ="0" specularExponent="{}"/>"#, rng.range(0, w as i64), rng.range(0, h as i64), rng.range(5, 40), w / 2, h / 2, rng.range(1, 8)),
+            };
+            if rng.chance(1, 2) {
+                prims += r#"<feGaussianBlur in="SourceAlpha" stdDeviation="2" result="bump"/>"#;
+            }
+            if rng.chance(2, 3) {
+                prims += &format!(r#"<feSpecularLighting surfaceScale="{}" specularConstant="{}" specularExponent="{}" lighting-color="rgb({cr},{cg},{cb})">{light}</feSpecularLighting>"#, rng.range(1, 8), rng.pick(&["0.6", "1", "2"]), rng.range(1, 15));
+            } else {
+                prims += &format!(r#"<feDiffuseLighting surfaceScale="{}" diffuseConstant="{}" lighting-color="rgb({cr},{cg},{cb})">{light}</feDiffuseLighting>"#, rng.range(1, 8), rng.pick(&["0.6", "1", "2"]));
+            }
         } else {
             let mut results = vec![];
             let mut gg = crate::gen::Gen::new(rng, crate::gen::Cfg::full(w, h));
